@@ -236,7 +236,7 @@ def spec_q_pruning(run, scratch):
     n = 0
     for rec in read_emitted(emit):
         ident = (rec["name"], rec["kind"], rec["tag"])
-        if ident in seen:
+        if ident in seen or rec["act"] != "Q":
             continue
         seen.add(ident)
         key0 = f"specQ-pruning:{rec['name']}:{rec['kind']}" + (f":gc={rec['gc']}" if rec.get("gc", 1) != 1 else "")
